@@ -501,6 +501,7 @@ def r6_helpers(ctx):
     from . import c14
     sub = type(ctx)(ctx.prop, ctx.facts)
     sub.guard("R14.2", "flatten", c14.r2_flatten, sub)
+    sub.guard("R14.3", "constructors", c14.r3_constructors, sub)      # gradient tensors are built with Tensor::{triple,quadruple}: shape = nesting
     bad = [o for o in sub.obligations if o["status"] != "ok"]
     for o in bad:
         ctx.bad("R08.6", "helper:" + o["instance"], o["key"].split("/", 3)[-1], o["where"], o["detail"])
@@ -508,7 +509,7 @@ def r6_helpers(ctx):
               "flatten / get_flat / get_triple are row-major (%d facts)" % len(sub.obligations))
 
 
-RULES["R08.6"] = "flat <-> CxHxW transitions: Tensor::flatten / get_flat / get_triple are row-major over (channels, rows, columns) (R14.2 re-run under this property)"
+RULES["R08.6"] = "flat <-> CxHxW transitions: Tensor::flatten / get_flat / get_triple are row-major over (channels, rows, columns); the tensor constructors record the extents of the nesting they are given, in order (R14.2 / R14.3 re-run under this property)"
 
 
 def run(ctx):
